@@ -581,7 +581,6 @@ class _Ref:
         self.names = {}  # name -> label of the entry stored under it
         self.desc = {}  # name -> annotation text
         self.msgs = []  # (severity, message)
-        self.keys = {}  # label -> set of names sharing the key
 
 
 def _open_ctx(root):
@@ -669,11 +668,10 @@ def _do_step(step, ctx_box, root, ref, fails, happy):
         ctx.store_annotation(name, ANNOTATIONS[step[2]])
         ref.desc[name] = ANNOTATIONS[step[2]]
     elif kind == 'retrieve':
-        if happy:
-            _check_committed_name(ctx, E[step[1]].model.name, ref, fails, CL_RT_NAME, CL_RT_RES)
+        # (also executed in crash workloads: everything before the crash point is fault-free)
+        _check_committed_name(ctx, E[step[1]].model.name, ref, fails, CL_RT_NAME, CL_RT_RES)
     elif kind == 'retrieve_key':
-        if happy:
-            _check_committed_key(_open_db(root), step[1], ref, fails, CL_RT_KEY)
+        _check_committed_key(_open_db(root), step[1], ref, fails, CL_RT_KEY)
     else:
         raise ValueError(step)
 
@@ -734,8 +732,6 @@ def _check_committed_key(db, label, ref, fails, clause, what='', fid=None):
 
 def _probe_uncommitted(ctx, db, label, ref_desc_options, fails, fid, clause, what, ref=None):
     """An entry whose store did not complete: a reader gets an exception or exactly the entry."""
-    from pharmpy.workflows.hashing import ModelHash
-
     E = _entries()
     me = E[label]
     name = me.model.name
@@ -785,6 +781,7 @@ def _run_workload(steps, crash_at, mode, torn, post):
     run.ref = ref = _Ref()
     run.crashed_step = None
     run.steps, run.post = steps, post
+    run.step_end = []  # number of file-system operations performed when each step returned
     ctx_box = [None]
     happy = crash_at is None
     snapshots = {}
@@ -810,6 +807,7 @@ def _run_workload(steps, crash_at, mode, torn, post):
                     break
                 if step[0] in ('store', 'txn') and snapshots[step[1]] != _entry_fingerprint(E[step[1]]):
                     fails.add(FID_STORE_MODEL, CL_FRAME, f'entry {step[1]} changed during step {step}')
+                run.step_end.append(fs.n)
     finally:
         fs.uninstall()
     run.trace = list(fs.trace)
@@ -835,7 +833,7 @@ def _run_case(steps, crash_at, mode, torn, post, collect_trace=False):
     finally:
         shutil.rmtree(run.root, ignore_errors=True)
     return {'fails': run.fails.items, 'nops': len(run.trace), 'trace': run.trace if collect_trace else None,
-            'hit': run.fs.hit, 'crashed_step': run.crashed_step}
+            'hit': run.fs.hit, 'crashed_step': run.crashed_step, 'step_end': run.step_end}
 
 
 _TS = re.compile(rb'\d{4}-\d\d-\d\d \d\d:\d\d:\d\d(\.\d+)?')
@@ -1102,8 +1100,17 @@ def _happy_workloads(tier):
     return ws
 
 
+# storing an entry whose key is already committed (A2 is A under another name and description)
+_W_ALIAS = [['ctx'], ['store', 'A'], ['store', 'A2']]
+
+
 def _crash_workloads(tier):
-    return [_W_QUICK] if tier == 'quick' else [_W_QUICK] + _W_THOROUGH
+    """(steps, index of the first step whose file-system operations are crash points): the crash
+    points of a shared prefix are enumerated once (in _W_QUICK)"""
+    ws = [(_W_QUICK, 0), (_W_ALIAS, 2)]
+    if tier != 'quick':
+        ws += [(w, 1) for w in _W_THOROUGH]
+    return ws
 
 
 def _checker_error(args, e):
@@ -1171,12 +1178,13 @@ def bounded_store_crash(tier):
         jobs.append((w, None, 'exc', False, post0))
     nhappy = len(jobs)
     opcounts = []
-    for w in _crash_workloads(tier):
+    for w, from_step in _crash_workloads(tier):
         probe = _run_case(w, None, 'exc', False, post0, collect_trace=True)
         trace = probe['trace']
-        opcounts.append(len(trace))
+        first = 1 if from_step == 0 else probe['step_end'][from_step - 1] + 1
+        opcounts.append(len(trace) - first + 1)
         for post in _POST_ORDERS[tier]:
-            for k in range(1, len(trace) + 1):
+            for k in range(first, len(trace) + 1):
                 jobs.append((w, k, 'both', False, post))
                 if trace[k - 1][0] == 'write':
                     jobs.append((w, k, 'both', True, post))
@@ -1202,8 +1210,9 @@ def bounded_store_crash(tier):
             f'{nhappy} fault-free workloads (9 entries A,A2,B,Bx,C,D,E,F,L of the pheno model over 3 '
             f'datasets, each of {len(CTX_MESSAGES)} log messages and {len(ANNOTATIONS)} annotations singly and in '
             f'sequence) + {len(_crash_workloads(tier))} crash workload(s) of <= 4 store/retrieve operations over 3 '
-            f'models (two sharing a dataset) with log/annotation writes: EVERY mutating file-system operation '
-            f'k=1..N (N={opcounts}) x {{exception, process death}} x {{before the operation, torn half-written '
+            f'models (two sharing a dataset, one re-stored under a second name) with log/annotation writes: EVERY '
+            f'mutating file-system operation (per workload {opcounts}, shared prefixes once) x '
+            f'{{exception, process death}} x {{before the operation, torn half-written '
             f'file for content writes}} x {len(_POST_ORDERS[tier])} order(s) of follow-up stores; after each crash '
             f'restart with fresh objects, reads, stores of other models, retry (evaluated once per distinct '
             f'resulting directory tree: {distinct} trees)'
@@ -1236,6 +1245,7 @@ _FID_EDIT = {
     'fix': 'src/pharmpy/modeling/parameters.py:fix_parameters',
     'unfix': 'src/pharmpy/modeling/parameters.py:unfix_parameters',
     'add_theta': 'src/pharmpy/modeling/parameters.py:add_population_parameter',
+    'add_theta_front': 'src/pharmpy/model/external/nonmem/update.py:update_thetas',
     'rm_theta': 'src/pharmpy/modeling/common.py:remove_unused_parameters_and_rvs',
     'rm_eps': 'src/pharmpy/modeling/common.py:remove_unused_parameters_and_rvs',
     'join': 'src/pharmpy/modeling/parameter_variability.py:create_joint_distribution',
@@ -1630,6 +1640,7 @@ def _edits_for(model, family):
             E.append(['unfix', names])
         E.append(['add_theta', 'NEWP', 0.7137, 0.0, 2.0137, True])
         E.append(['add_theta', 'NEWQ', 0.7137, None, None, False])
+        E.append(['add_theta_front', 'NEWF', 0.7137, 0.0, 2.0137])
         for n in names:
             E.append(['rm_theta', n])
         return E
@@ -1711,6 +1722,13 @@ def _apply_edit(model, e):
             st = Assignment.create(Expr.symbol('Q' + e[1]), Expr.symbol(e[1]))
             m = m.replace(statements=st + m.statements)
         return m
+    if k == 'add_theta_front':
+        from pharmpy.model import Parameter, Parameters
+
+        new = Parameter.create(e[1], e[2], lower=e[3], upper=e[4])
+        st = Assignment.create(Expr.symbol('Q' + e[1]), Expr.symbol(e[1]))
+        return model.replace(parameters=Parameters.create([new] + list(model.parameters)),
+                             statements=st + model.statements)
     if k in ('rm_theta', 'rm_eps'):
         m = model.replace(statements=model.statements.subs({Expr.symbol(e[1]): Expr.integer(0)}))
         return M.remove_unused_parameters_and_rvs(m)
@@ -1728,6 +1746,7 @@ def _apply_edit(model, e):
 _KIND_LABEL = {
     'init': 'set_initial_estimates', 'lower': 'set_lower_bounds', 'upper': 'set_upper_bounds',
     'fix': 'fix_parameters', 'unfix': 'unfix_parameters', 'add_theta': 'add_population_parameter',
+    'add_theta_front': 'inserting a theta in front',
     'rm_theta': 'removing a theta', 'rm_eps': 'removing an epsilon', 'join': 'create_joint_distribution',
     'split': 'split_joint_distribution', 'remove_iiv': 'remove_iiv', 'add_iiv': 'add_iiv',
 }
@@ -1753,7 +1772,7 @@ class _RFails:
                                       'replay_fn': 'bounded_record_updates_replay'})
 
 
-def _check_roundtrip(m0, m2, lay, edits):
+def _check_roundtrip(m0, m2, lay, edits, history=()):
     """the contract: re-reading the code generated for m2 gives the parameters / random variables
     of m2, and untouched values keep their spelling.
     returns the violated clauses as [(fid, clause without label, detail)]"""
@@ -1773,10 +1792,10 @@ def _check_roundtrip(m0, m2, lay, edits):
 
     ctx = f"layout {lay['theta']!r} | {lay['omega']!r} | {lay['sigma']!r}, edits {edits}: "
     try:
-        code = m2.code
+        code = m2.update_source().code
         m3 = read_model_from_string(code)
     except Exception as e:
-        fails.add(fid, cl(R_PARSE), ctx + f'{_exc_str(e)}', lay, edits)
+        fails.add(fid, cl(f'{R_PARSE} ({type(e).__name__})'), ctx + f'{_exc_str(e)}', lay, edits)
         return out
     shown = ' // '.join(ln for ln in code.split('\n') if ln[:1] in '$ 0123456789(.' and not ln.startswith(
         ('$PROB', '$INPUT', '$DATA', '$PRED', '$EST')))
@@ -1819,7 +1838,6 @@ def _check_roundtrip(m0, m2, lay, edits):
     if rn2 != rn3:
         fails.add(fid, cl(R_RVNAMES), ctx + f'in memory {rn2}, re-read {rn3}', lay, edits)
     v2, v3 = _rv_view(m2), _rv_view(m3)
-    key2 = sorted((k, n, lv, pat) for k, n, lv, mat, pat in v2)
     same = len(v2) == len(v3)
     if same:
         # compare per kind in order (etas and epsilons may be interleaved differently in the list)
@@ -1834,21 +1852,28 @@ def _check_roundtrip(m0, m2, lay, edits):
                     same = False
                 elif any(not _close(p, q, 1e-6) for r1, r2_ in zip(x[3], y[3]) for p, q in zip(r1, r2_)):
                     same = False
-                elif _canon(x[4]) != _canon(y[4]):
-                    same = False
+            # which matrix entries are the same parameter (within and across distributions: SAME)
+            if _canon([x[4] for x in a]) != _canon([x[4] for x in b]):
+                same = False
     if not same:
         fails.add(fid, cl(R_RVSTRUCT), ctx + f'in memory {_rv_brief(v2)}, re-read {_rv_brief(v3)}', lay, edits)
-    del key2
-    # spelling of untouched values
+    # spelling of untouched values: parameters whose value, bounds and fixedness never changed in
+    # the edit sequence and whose distribution (for omegas / sigmas) was never restructured
     p0 = _pmap(m0)
     d0 = {tuple(n): rows for n, lv, rows in _dists(m0)}
-    d2 = {tuple(n): rows for n, lv, rows in _dists(m2)}
-    same_dist = set()
-    for names, rows in d0.items():
-        if d2.get(names) == rows:
-            for row in rows:
-                same_dist.update(x for x in row if x)
-    unchanged = {n for n in p0 if n in p2 and p0[n] == p2[n]}
+    steps = list(history) + [m2]
+    same_dist = None
+    unchanged = set(p0)
+    for mi in steps:
+        pi = _pmap(mi)
+        di = {tuple(n): rows for n, lv, rows in _dists(mi)}
+        keep = set()
+        for names, rows in d0.items():
+            if di.get(names) == rows:
+                for row in rows:
+                    keep.update(x for x in row if x)
+        same_dist = keep if same_dist is None else (same_dist & keep)
+        unchanged = {n for n in unchanged if n in pi and p0[n] == pi[n]}
     scaled_members = {n for g in lay['scaled'] for n in g}
     lost, lost_sc = [], []
     for name, toks in lay['spell'].items():
@@ -1874,9 +1899,10 @@ def _check_roundtrip(m0, m2, lay, edits):
     return out
 
 
-def _canon(pat):
+def _canon(pats):
+    """sharing pattern of the entries of a list of matrices, relabelled by first occurrence"""
     m = {}
-    return [[(m.setdefault(x, len(m)) if x >= 0 else -1) for x in row] for row in pat]
+    return [[[(m.setdefault(x, len(m)) if x >= 0 else -1) for x in row] for row in pat] for pat in pats]
 
 
 def _rv_brief(v):
@@ -1884,14 +1910,15 @@ def _rv_brief(v):
 
 
 def _full_clause(lay, edits, c):
-    """clause key: naming / ordering clauses are keyed by record type only (systematic), the
-    value-level clauses by layout class (so that one class cannot mask a violation in another)"""
-    if c in (R_NAMES, R_ORDER, R_RVNAMES):
+    """clause key: naming / ordering clauses and all clauses for pairs of edits are keyed by record
+    type only, the value-level clauses of single edits by layout class (so that one class cannot
+    mask a violation in another)"""
+    if c in (R_NAMES, R_ORDER, R_RVNAMES) or len(edits) > 1:
         return f"{_edit_label({'theta': '$THETA', 'omega': '$OMEGA', 'sigma': '$SIGMA'}[lay['family']], edits)}: {c}"
     return f"{_edit_label(lay['cls'], edits)}: {c}"
 
 
-def _eval_sequence(m0, model, lay, seq, e):
+def _eval_sequence(m0, model, lay, seq, e, history=()):
     """apply edit e (last of seq) to `model` and evaluate the contract.
     returns (new model or None, status 'rejected'|'error'|'ok', [(fid, clause, detail)])"""
     where = f"layout {lay['theta']!r} | {lay['omega']!r} | {lay['sigma']!r}, edits {seq}: "
@@ -1900,8 +1927,9 @@ def _eval_sequence(m0, model, lay, seq, e):
     except ValueError:
         return None, 'rejected', []  # rejected input (documented)
     except Exception as ex:
-        return None, 'error', [(_FID_EDIT[e[0]], R_NOERR, where + _exc_str(ex) + ' :: ' + traceback.format_exc()[-250:])]
-    return m2, 'ok', _check_roundtrip(m0, m2, lay, seq)
+        return None, 'error', [(_FID_EDIT[e[0]], f'{R_NOERR} ({type(ex).__name__})',
+                                where + _exc_str(ex) + ' :: ' + traceback.format_exc()[-250:])]
+    return m2, 'ok', _check_roundtrip(m0, m2, lay, seq, history)
 
 
 def _run_layout(lay, depth):
@@ -1923,14 +1951,16 @@ def _run_layout(lay, depth):
     except ModelSyntaxError:
         return cases, nontrivial, fails  # documented: the layout is not legal for pharmpy
     except Exception as e:
-        fails.add(FID_PARSE, _full_clause(lay, [], R_READ), f'layout {code!r}: {_exc_str(e)}', lay, [])
+        fails.add(FID_PARSE, _full_clause(lay, [], f'{R_READ} ({type(e).__name__})'), f'layout {code!r}: {_exc_str(e)}',
+                  lay, [])
         return cases, nontrivial, fails
     nontrivial += 1
     try:
-        if m0.code != code:
-            fails.add(fid, _full_clause(lay, [], R_IDENT), f'layout {code!r} regenerated as {m0.code!r}', lay, [])
+        regen = m0.update_source().code
+        if regen != code:
+            fails.add(fid, _full_clause(lay, [], R_IDENT), f'layout {code!r} regenerated as {regen!r}', lay, [])
     except Exception as e:
-        fails.add(fid, _full_clause(lay, [], R_PARSE), f'layout {code!r}: {_exc_str(e)}', lay, [])
+        fails.add(fid, _full_clause(lay, [], f'{R_PARSE} ({type(e).__name__})'), f'layout {code!r}: {_exc_str(e)}', lay, [])
     for f_, c_, d_ in _check_roundtrip(m0, m0, lay, []):
         fails.add(f_, _full_clause(lay, [], c_), d_, lay, [])
     try:
@@ -1961,7 +1991,7 @@ def _run_layout(lay, depth):
             for e2 in seconds:
                 cases += 1
                 seq = [e1, e2]
-                m2, status, viol = _eval_sequence(m0, m1, lay, seq, e2)
+                m2, status, viol = _eval_sequence(m0, m1, lay, seq, e2, [m1])
                 if status != 'rejected':
                     nontrivial += 1
                 known = single_failed.get(repr(e1), set()) | single_failed.get(repr(e2), set())
@@ -2019,7 +2049,7 @@ def bounded_record_updates(tier):
             f'(l,v,u) FIX, (v FIX), (-INF,v,INF), (v)xn, with/without name comments), {len(om)} $OMEGA and {len(sg)} '
             f'$SIGMA layouts (DIAGONAL one/several lines/records, (v)xn, BLOCK(1..3), VALUES, SAME, FIX at record and '
             f'value level, SD/VARIANCE x CORRELATION/COVARIANCE, CHOLESKY; <= 4 etas) x EVERY applicable single edit '
-            f'(init / lower / upper / fix / unfix of each parameter or distribution and of all, add theta used/unused, '
+            f'(init / lower / upper / fix / unfix of each parameter or distribution and of all, add theta used/unused/in front, '
             f'remove each theta / epsilon, join trailing / leading / outer / all, split all / each, remove_iiv of each eta '
             f'and of all but the first, add_iiv exp/add)'
             + (f' and EVERY ordered pair of such edits on {npairs} layouts' if npairs else '')
@@ -2047,19 +2077,24 @@ def bounded_record_updates_replay(rp):
             return (True, 'ok')
         except Exception as e:
             m0 = None
-            found.append((FID_PARSE, _full_clause(lay, [], R_READ), _exc_str(e)))
+            found.append((FID_PARSE, _full_clause(lay, [], f'{R_READ} ({type(e).__name__})'), _exc_str(e)))
         if m0 is not None and not edits:
             try:
-                if m0.code != code:
-                    found.append((fid, _full_clause(lay, [], R_IDENT), f'regenerated as {m0.code!r}'))
+                regen = m0.update_source().code
+                if regen != code:
+                    found.append((fid, _full_clause(lay, [], R_IDENT), f'regenerated as {regen!r}'))
             except Exception as e:
-                found.append((fid, _full_clause(lay, [], R_PARSE), _exc_str(e)))
+                found.append((fid, _full_clause(lay, [], f'{R_PARSE} ({type(e).__name__})'), _exc_str(e)))
             found += [(f_, _full_clause(lay, [], c_), d_) for f_, c_, d_ in _check_roundtrip(m0, m0, lay, [])]
         elif m0 is not None:
             m = m0
+            hist = []
             for i, e in enumerate(edits):
                 seq = edits[: i + 1]
-                m, status, viol = _eval_sequence(m0, m, lay, seq, e)
+                prev = m
+                m, status, viol = _eval_sequence(m0, m, lay, seq, e, list(hist))
+                hist.append(m)
+                del prev
                 if status != 'ok' or i == len(edits) - 1:
                     found += [(f_, _full_clause(lay, seq, c_), d_) for f_, c_, d_ in viol]
                 if status != 'ok':
